@@ -76,6 +76,7 @@ TRANSLATORS = {
     "GenRoutes": "gen_routes",
     "GenSave": "gen_save",
     "GenSemiAsync": "gen_semiasync",
+    "GenKernel": "gen_kernel",
 }
 
 
